@@ -2670,6 +2670,11 @@ impl Block {
                 if expected.from.len() != transaction.from.len() {
                     return false;
                 }
+                // (a rebroadcast carries the signature of the transaction it rebroadcasts. the hash the
+                // rebroadcasts are compared by leaves the signature field out)
+                if expected.signature != transaction.signature {
+                    return false;
+                }
                 for j in 0..expected.from.len() {
                     if expected.from[j].public_key != transaction.from[j].public_key
                         || expected.from[j].block_id != transaction.from[j].block_id
